@@ -536,7 +536,9 @@ pub fn run_check(def: &PropDef, tier: Tier, seed: u64, max_items: Option<u64>) -
         },
         "assumptions": def.assumptions,
     });
-    let evdir = root.join("evidence");
+    // runs against a scratch worktree (VERIF_REPO) must not overwrite the evidence of /repo
+    let scratch = std::env::var("VERIF_REPO").map_or(false, |r| !r.is_empty() && r != "/repo");
+    let evdir = if scratch { root.join("logs").join("evidence-scratch") } else { root.join("evidence") };
     let _ = std::fs::create_dir_all(&evdir);
     let evpath = evdir.join(format!("{}.json", def.id));
     if let Err(e) = std::fs::write(&evpath, serde_json::to_string_pretty(&ev).unwrap()) {
